@@ -593,6 +593,11 @@ func (cc *ClusterContext) removePartition(partitionName string) {
 // addNode adds a new node to the cluster enforcing just one unlimited node in the cluster.
 // nil nodeInfo objects must be filtered out before calling this function
 func (cc *ClusterContext) addNode(nodeInfo *si.NodeInfo, schedulable bool) error {
+	// an empty node ID is what marks an allocation as not yet placed: it cannot be used for a node
+	if nodeInfo.NodeID == "" {
+		metrics.GetSchedulerMetrics().IncFailedNodes()
+		return fmt.Errorf("failed to add node: node ID is not set")
+	}
 	sn := objects.NewNode(nodeInfo)
 	sn.SetSchedulable(schedulable)
 
